@@ -310,6 +310,9 @@ func (e *Exec) intrinsic(fn *ssa.Function, args []value) value {
 	if r, ok := e.promIntrinsic(fn.Name(), args); ok {
 		return r
 	}
+	if r, ok := e.netIntrinsic(fn.Name(), args); ok {
+		return r
+	}
 	if r, ok := e.fsIntrinsic(fn.Name(), args); ok {
 		return r
 	}
